@@ -472,7 +472,26 @@ func c18anomaly(c *Ctx) {
 					continue
 				}
 				bo, isB := ret.Results[0].(*ssa.BinOp)
-				if !isB || (bo.Op != token.GTR && bo.Op != token.GEQ) || !strings.HasSuffix(an.Path(bo.X), "counter.ConsecutiveAbnormalities") || !strings.HasSuffix(an.Path(bo.Y), "anomalyCondition.ConsecutiveAbnormalities") {
+				if !isB {
+					ok = false
+					continue
+				}
+				// counter > configured, or its mirror image configured < counter
+				x, y, op := bo.X, bo.Y, bo.Op
+				if strings.HasSuffix(an.Path(x), "anomalyCondition.ConsecutiveAbnormalities") {
+					x, y = y, x
+					switch op {
+					case token.LSS:
+						op = token.GTR
+					case token.LEQ:
+						op = token.GEQ
+					case token.GTR:
+						op = token.LSS
+					case token.GEQ:
+						op = token.LEQ
+					}
+				}
+				if (op != token.GTR && op != token.GEQ) || !strings.HasSuffix(an.Path(x), "counter.ConsecutiveAbnormalities") || !strings.HasSuffix(an.Path(y), "anomalyCondition.ConsecutiveAbnormalities") {
 					ok = false
 				}
 			}
